@@ -15,6 +15,53 @@ RULE = ("case = object tree (with id strategy); trees: all admissible trees up t
         "anonymous / all ids / explicit actions lists; inadmissible parent-child combinations; non-trivial = >= 3 objects; distinct by JSON")
 
 
+def same_name_projects(chk):
+    """one invocation over documents of several directories whose components share a NAME and differ in KIND (widget / menu / layout / action-like):
+    every document's form is the one it gets when translated alone, whatever else is named on the command line and in whatever order"""
+    import itertools
+    import os
+    import shutil
+    import subprocess
+    import tempfile
+    from vlib import build_cli, QT5_METATYPES
+    qmluic = build_cli()
+    H = "import qmluic.QtWidgets\n"
+    files = {"v/Tools.qml": H + "QWidget { QLabel { text: \"v\" } }\n", "v/Main.qml": H + "QWidget { Tools { id: t } QLabel { id: after } }\n",
+             "e/Tools.qml": H + "QMenu { QAction { id: inner } }\n", "e/Main.qml": H + "QMenu { QAction { id: first } Tools { id: t } QAction { id: last } }\n",
+             "l/Tools.qml": H + "QVBoxLayout { }\n", "l/Main.qml": H + "QWidget { Tools { id: t; QLabel { id: a } QLabel { id: b } } }\n",
+             "w/Tools.qml": H + "QTabWidget { }\n", "w/Main.qml": H + "QWidget { QVBoxLayout { Tools { id: t; QWidget { id: page; QTabWidget.title: \"p\" } } } }\n"}
+    d = tempfile.mkdtemp(prefix="c11same-", dir=chk.work)
+    try:
+        for f, text in files.items():
+            os.makedirs(os.path.join(d, os.path.dirname(f)), exist_ok=True)
+            open(os.path.join(d, f), "w").write(text)
+        mains = [f for f in files if f.endswith("Main.qml")]
+
+        def run_cli(srcs, out):
+            p = subprocess.run([qmluic, "generate-ui", "--foreign-types", QT5_METATYPES, "-O", out] + list(srcs), cwd=d, capture_output=True, text=True, timeout=120)
+            got = {}
+            for m in srcs:
+                g = os.path.join(d, out, os.path.dirname(m), "main.ui")
+                got[m] = open(g).read() if os.path.exists(g) else None
+            return p.returncode, got, p.stderr[-400:]
+        alone = {}
+        for n, m in enumerate(mains):
+            rc, got, err = run_cli([m], "alone%d" % n)
+            if rc != 0 or got[m] is None:
+                raise ToolError("same-name project: %s alone is not translated: %s" % (m, err))
+            alone[m] = got[m]
+        for n, order in enumerate(list(itertools.permutations(mains, 2)) + list(itertools.permutations(mains))[::5]):
+            rc, got, err = run_cli(order, "joint%d" % n)
+            chk.count({"same_name_project": list(order)}, nontrivial=True)
+            for m in order:
+                if got[m] != alone[m]:
+                    chk.violation("%s translated together with %s (exit %d) yields another form than alone" % (m, [x for x in order if x != m], rc),
+                                  {"files": files, "argv": list(order), "alone": alone[m], "joint": got[m], "stderr": err})
+                    break
+    finally:
+        shutil.rmtree(d, ignore_errors=True)
+
+
 def run(chk):
     build_harness()
     quick = chk.tier == "quick"
@@ -84,5 +131,6 @@ def run(chk):
     chk.cov["exhaustive"] = True
     chk.sample({"qml": T.document(items[len(items) // 2][1])})
     chk.sample({"qml": T.document(items[-1][1])})
+    same_name_projects(chk)
     chk.cov["trusted_base"] = ["expat", "TLC", "ObjTree.tla FormOf", "bundled Qt 5 metatypes"]
     chk.assumptions += ["custom components (directories) are exercised by C18; item models, headers and attached tab attributes are outside FormOf"]
